@@ -1178,6 +1178,9 @@ class DiscretizedSpaceElement(Tensor):
             except TypeError:
                 axis = (int(axis),)
 
+            # Normalize negative axes (NumPy counts them from the end)
+            axis = tuple(int(a) + self.ndim if int(a) < 0 else int(a)
+                         for a in axis)
             reduced_axes = [i for i in range(self.ndim) if i not in axis]
 
         # --- Evaluate ufunc --- #
